@@ -113,6 +113,23 @@ def mintPossibility (P : Params) (epoch ts : Nat) (validateOnly : Bool) (lastBat
     | none => none
     | some a => some (batch, a)
 
+/-! ## the horizon of the schedule -/
+
+/-- first `z ≥ y` (searching at most `fuel` steps) at which `p` fails -/
+def firstFalse (p : Nat → Bool) : Nat → Nat → Nat
+  | 0, y => y
+  | fuel + 1, y => if p y then firstFalse p fuel (y + 1) else y
+
+/-- batch `b` is defined and positive (Boolean form) -/
+def posBatchB (P : Params) (b : Nat) : Bool :=
+  match mintBatchSize P b with
+  | some x => decide (0 < x)
+  | none => false
+
+/-- The first year whose daily amount is zero or whose computation panics: from batch
+    `horizonYear · days` on nothing can be minted. -/
+def horizonYear (P : Params) : Nat := firstFalse (fun y => posBatchB P (y * P.days)) (P.maxYears + 1) 0
+
 /-! ## distribution -/
 
 inductive DistOut where
